@@ -7,7 +7,7 @@ CHECKS = {
    text='Theorems (Coq, reals, all sizes/dims/codebooks incl. duplicates and zero codes): argmax of the code\'s score -sqrt(max(0, x.x + c.c - 2 x.c)) is a nearest code in squared distance and the first such index; '
         'clamp and sqrt never change the winner; any maximal-score index is nearest (any tie-break); cosine: the winner maximises <x, c>, is invariant under positive rescaling of x, and is the nearest point on the sphere; '
         'the index is computed from the codebook in force at call start; LatentQuantize picks the value nearest in |z - v|; a mutated formula (dropped code norm) is refuted by witness. '
-        'Tie: cdist kernel, gumbel guard and the selection dataflow regenerated from the source; every recorded codebook call (VectorQuantize heads/layouts/projections/cosine, ResidualVQ layers incl. shared and implicit-neural, SimVQ, ResidualSimVQ, RandomProjectionQuantizer, LatentQuantize) checked nearest + returned vector = entry inside Coq on exact rationals.',
+        'Tie: cdist kernel, gumbel guard and the selection dataflow regenerated from the source; every recorded codebook call (VectorQuantize heads/layouts/projections/cosine, ResidualVQ layers incl. shared and implicit-neural, SimVQ, ResidualSimVQ, RandomProjectionQuantizer, LatentQuantize) checked nearest + returned vector = entry inside Coq on exact rationals. Histories with external writes (load_state_dict, codebook setter, direct writes, optimiser steps): every deterministic call of ANY history selects over the codebook in force at that call (Model/History.v). The einops patterns that split heads and re-layout indices are regenerated from the source, interpreted in Coq (Model/Einops.v) and proved equal to the index maps of the layout model for all extents.',
    note='near-ties inside a float band are accepted (tol 0 on the dyadic stream); projections / MLP / SimVQ transform are opaque (applied by the module itself); pairwise_distance 1e-6 shift of the implicit-neural path is inside the band.',
    technique='Coq proof (reals, order/field reasoning, unbounded) + regenerated kernels + per-call correspondence evaluated in Coq (vm_compute over Q)',
    ref='DESIGN.md section 4 C01'),
@@ -49,7 +49,7 @@ CHECKS = {
         '(EMA, normalisation, expiry), whatever sits in the padding and whatever indices padded tokens receive; k-means sees valid tokens only; with heads folded into the batch the flattened token (b,h,n) is valid iff mask[b][n]; '
         'outputs at padded positions are the fill value and independent of the computation there; masked mean losses depend on valid tokens only. '
         'Tie: one-hot zeroing guard, mask replication pattern, valid-token selection (k-means, expiry), loss masks and fill values regenerated from the source and pinned; paired runs on 26 configurations (same valid tokens, adversarial padding, ragged masks / lens, multi-step histories) '
-        'compared bit-exactly on outputs, indices, every loss term and state_dict; padded positions = -1 / fill; masked call = call on the truncated sequence; recorded calls stepped on valid tokens through the model in Coq.',
+        'compared bit-exactly on outputs, indices, every loss term and state_dict; padded positions = -1 / fill; masked call = call on the truncated sequence; recorded calls stepped on valid tokens through the model in Coq. lens_to_mask regenerated (prefix mask, no decorators); the mask replication pattern interpreted in Coq; ragged batches equal the concatenated valid tokens.',
    note='known findings (listed in known_findings.json, reported as KNOWN-FINDING): diversity loss averages over padded positions; shared-codebook ResidualVQ end-of-forward expiry ignores the mask; LFQ / ResidualLFQ mask is loss-only (no -1, output depends on padding). Two defects were repaired (fix: 892caae, f30bcfa).',
    technique='Coq proof (reals, lock-step list induction) + regenerated guards/dataflow + paired-run correspondence (bit-exact) with model replay in Coq',
    ref='DESIGN.md section 4 C09'),
@@ -65,7 +65,7 @@ CHECKS = {
    text='Theorems (Coq, reals / integers, all layer counts / codebooks / dims): decoding the indices returned by the residual forward reproduces its output (sum of table entries); index -1 decodes to the zero vector; every coarse prefix decodes to the partial sum; '
         'dropped layers report -1 and a zero code; return_all_codes sums to the output; the mixed-radix index codec is a bijection and distinct indices decode to distinct codes (FSQ / LatentQuantize). '
         'Tie: residual decoders (mask test == -1, pad value, fill 0, scales, uniform vs layer-by-layer branch) and the public decoders regenerated from the source and pinned; for every class x layout x non-updating mode decode(indices) is compared with the forward output '
-        '(bit-exact FSQ / LFQ / residual forms in eval, 1e-5 otherwise), image layouts with the feature axis last, every dropout depth, every coarse prefix, -1; the model\'s decoder is evaluated in Coq on the returned indices.',
+        '(bit-exact FSQ / LFQ / residual forms in eval, 1e-5 otherwise), image layouts with the feature axis last, every dropout depth, every coarse prefix, -1; the model\'s decoder is evaluated in Coq on the returned indices. Every decode of any history with external writes is a table lookup in the codebook in force; the -1 masks, layer-axis and channel-first patterns of the residual / scalar / SimVQ / LatentQuantize decoders are interpreted in Coq from the regenerated pattern strings.',
    note='four decoder defects were repaired (fix: e1c9974, cb34132, c81a07b, f8fd7c6; earlier 9098ab2); known finding: LatentQuantize.indices_to_codes ignores learned values_per_latent. The float32 bit-exact codec statements live under C04.',
    technique='Coq proof (list induction, reals/integers) + regenerated decoders + round-trip correspondence over all classes/layouts with model decode in Coq',
    ref='DESIGN.md section 4 C02'),
@@ -89,7 +89,7 @@ CHECKS = {
    text='Theorems (Coq, axiom-free, ALL extents - no bound on batch, sequence, image, head or feature sizes): with layouts as index maps and grouped axes row-major, the image / channel-first / multi-head (separate and shared, heads folded into the batch) / multi-codebook pipelines return at every position exactly f(input vector at that position) '
         'and the index of that vector; image layout = flattened channel-last sequence; consequently permuting, splitting, concatenating or re-batching tokens re-indexes outputs and indices identically, a single vector alone = in any batch, and the result depends on its own vector only. '
         'Tie: every einops/einx pattern at the anchored sites regenerated and pinned; the model\'s index map of each pattern compared with einops itself on index-labelled tensors (several extents per pattern, evaluated in Coq); '
-        'metamorphic pairs on 17 module configurations x layouts in eval / frozen mode (token permutations, batch split/concat, single vs batch, every layout vs flattened channel-last with the same weights).',
+        'metamorphic pairs on 17 module configurations x layouts in eval / frozen mode (token permutations, batch split/concat, single vs batch, every layout vs flattened channel-last with the same weights). The pattern STRINGS of 41 rearrange sites are regenerated, parsed and interpreted in Coq (Model/Einops.v) and proved equal to the index maps; for every well-formed pattern rearrange after the swapped rearrange is the identity, reads only in-range entries and is injective; the interpreter is compared with einops on every collected pattern.',
    note='Linear / LayerNorm / SiLU / MLP are assumed position-wise on the last axis (validated by the metamorphic runs); BLAS reassociation is absorbed by a 1e-5 tolerance on projected outputs.',
    technique='Coq proof (div/mod index-map lemmas, all extents, no functional extensionality) + regenerated patterns + einops-vs-model correspondence in Coq + metamorphic correspondence',
    ref='DESIGN.md section 4 C10'),
@@ -106,7 +106,7 @@ CHECKS = {
         'whose level is always one of the L declared levels (for eps (L-1) < 1), inside [-1,1], every level reachable (explicit pre-image), thresholds at the pre-images of half-integers, odd-symmetric for odd L, saturating at the extreme levels; '
         'symmetry-preserving mode: output is a point of the uniform L-grid within half a step of tanh z (nearest grid point), monotone; LFQ: +scale iff x > 0; per-dimension map. '
         'Tie: bound / symmetric-bound / LFQ kernels, offset, half width and the quantize branches regenerated from the source; for every L in 2..16 and both modes the level returned by the implementation on exponent sweeps, plateau boundaries +- 3 ulps and random inputs '
-        'is certified against the real bounding function by one `interval` goal per sample (about 2500 kernel-checked goals per quick run); LFQ sign rule evaluated at Q; tensors / codebooks / layouts / training flag vs the scalar map.',
+        'is certified against the real bounding function by one `interval` goal per sample (about 2500 kernel-checked goals per quick run); LFQ sign rule evaluated at Q; tensors / codebooks / layouts / training flag vs the scalar map. The LFQ straight-through expression is regenerated as a value kernel with abstract detach: its forward value is the quantized value for every activation; FSQ / LFQ codebook split and merge patterns interpreted in Coq.',
    note='libm tanh/atanh modelled by the real functions within 2e-5 of a level; round-half-even vs other tie rules is not distinguishable through float tanh; thorough tier adds larger L and denser sweeps (not all 2^32 bit patterns).',
    technique='Coq proof (reals, Flocq rounding) + regenerated kernels + per-sample certification with the interval tactic + exact LFQ correspondence in Coq',
    ref='DESIGN.md section 4 C05'),
@@ -123,7 +123,7 @@ CHECKS = {
         'that map carries the input direction onto the code direction and is an isometry (|R e| = |e| for every e: a rotation); evaluation-mode output has no input gradient; sync_update_v scales the gradient by (1+v); commitment loss: d/dx = 2 w (x - q)/N (Coquelicot derivative), EMA-maintained or frozen codebooks get no gradient, learnable ones 2 w (q - x)/N; '
         'FSQ: derivative = half_l (1 - tanh^2(z + shift)) / floor(L/2); gradients never flow between positions. '
         'Tie: maybe_detach / rotation guards and safe_div regenerated, every .detach() / no_grad site pinned; full torch Jacobians compared column by column with the model evaluated in Coq over Q, forward values, loss gradients w.r.t. input and codebook, SimVQ two-sided loss and transform gradient, '
-        'FSQ / LFQ / LatentQuantize closed forms, residual and large forms by vector-Jacobian products, every cross-position block compared exactly with 0.',
+        'FSQ / LFQ / LatentQuantize closed forms, residual and large forms by vector-Jacobian products, every cross-position block compared exactly with 0. The straight-through expressions of VectorQuantize, the synchronous update, FSQ round_ste, SimVQ, LatentQuantize, LFQ and the Gumbel one-hot are regenerated as kernels with abstract detach: value = quantized value, and with the detached part frozen the expression is input + constant (identity Jacobian). Cosine codebooks: J.v on directions orthogonal to x equals the model tangent at the normalised input (checked in Coq).',
    note='PARTIAL as named: torch autograd itself is modelled (detached sub-expressions are constants of the differentiated map) and validated against real Jacobians, not verified.',
    technique='Coq proof (reals, vector algebra, Coquelicot derivatives) + regenerated guards / pinned detach sites + Jacobian correspondence evaluated in Coq over Q',
    ref='DESIGN.md section 4 C07'),
